@@ -28,6 +28,9 @@ def _simple_subject(e) -> bool:
         return _simple_subject(e.value)
     if isinstance(e, ast.Tuple):
         return all(_simple_subject(x) for x in e.elts)
+    if isinstance(e, ast.Subscript):
+        # c["type"], row[0]: reading an item of a plain container again gives the same value
+        return _simple_subject(e.value) and (isinstance(e.slice, ast.Constant) or _simple_subject(e.slice))
     return False
 
 
